@@ -2110,7 +2110,7 @@ void m_observed()
         set_ops(t, o1, o2);
         OD const a = dec<OD>(o1);
         opt<E> const b = dec<opt<E>>(o2);
-        tfn<opt<A>, D, E> f{1, t % 1000 + (t / 1000) * 0}; // table over 9 argument pairs, radix 4
+        tfn<opt<A>, D, E> f{1, t}; // table over the 9 argument pairs, radix 4
         lib_log().clear();
         opt<A> r = fcppt::monad::do_(
             a, [&b](auto const &) { return b; }, [&f](auto const &x, auto const &y) { return f(x, y); });
